@@ -111,7 +111,7 @@ Section alloc.
     assert (IHv : forall cx, mono_v (eval_v e M F f cx)) by (intros c; apply IH).
     assert (IHa : forall cx, mono_a (eval_a e M F f cx)) by (intros c; apply IH).
     split.
-    - intros p src st v st' H. rewrite eval_v_S in H. destruct p as [| |al q|m|c args fl|t a|ini tp a|el a].
+    - intros p src st v st' H. rewrite eval_v_S in H. destruct p as [| |al q|m|c args fl|t a|ini tp a|el a|ini t cases dflt].
       + fin H.
       + fin H.
       + destruct (eval_v e M F f cx q src st) as [[r st1]| | | |] eqn:E; cbn [obind] in H; try discriminate.
@@ -133,6 +133,21 @@ Section alloc.
       + destruct (eval_v e M F f cx ini src st) as [[v0 st1]| | | |] eqn:E; cbn [obind] in H; try discriminate.
         apply IHv in E. destruct tp; apply IHa in H; lia.
       + destruct src; try discriminate. apply IHa in H. lia.
+      + assert (X : forall (o : outcome (val * N)), (forall v0 s1, o = Done (v0, s1) -> st <= s1) ->
+                    (let* (old, st1) := o in
+                     match src with
+                     | VBasic z => match enum_action cases dflt z with
+                                   | EASet v1 => Done (VBasic v1, st1) | EAIgnore => Done (old, st1) | EAPanic => Panicked
+                                   | EAError => Errored {| er_fn := ENUM_ERR; er_wraps := []; er_pending := [] |}
+                                   end
+                     | _ => Stuck
+                     end) = Done (v, st') -> st <= st').
+        { intros o Ho Hx. destruct o as [[old st1]| | | |]; cbn [obind] in Hx; try discriminate.
+          specialize (Ho _ _ eq_refl). destruct src; try discriminate. destruct (enum_action cases dflt z); try discriminate; injection Hx as ? ?; subst; exact Ho. }
+        eapply X; [|exact H]. intros v0 s1 Hd. destruct ini as [[ip tp]|].
+        * destruct (eval_v e M F f cx ip src st) as [[v1 s2]| | | |] eqn:E; cbn [obind] in Hd; try discriminate.
+          apply IHv in E. destruct tp; injection Hd as ? ?; subst; lia.
+        * apply (f_equal (fun o : outcome (val * N) => match o with Done x => snd x | _ => 0 end)) in Hd. cbv beta iota in Hd. cbn [snd] in Hd. subst. lia.
     - intros a src old st v st' H. rewrite eval_a_S in H. destruct a as [q|q|q|fx el a'|k vv|fs|a'|a'].
       + eapply IHv. exact H.
       + destruct src; try discriminate; [fin H|].
